@@ -200,6 +200,7 @@ class Sched:
 
   # ---- controller (main thread)
   def run(self):
+    install_model_locks()  # idempotent; a real gin lock held by a preempted thread would hang the run
     for lk in _INSTALLED.values():
       lk.sched = self
       lk.owner = None
